@@ -408,6 +408,59 @@ def rule_slot(S):
          'get_empty_slot can return an index without its mark having been tested clear', loc=g.loc)
 
 
+def rule_idx(S):
+    """R-IDX: ranks and slot numbers are different index spaces; only the permutation translates between them."""
+    facts = S.facts()
+    S.rule('R-IDX', 'in every function that translates ranks with permutation::get_index_of_rank, a variable used as a '
+                    'rank (argument of get_index_of_rank) is never used as a slot number (first argument of get_lv_at / '
+                    'get_key_slice_at / get_key_length_at / set_key_*_at / set_lv* / lv_.at): rank r and slot r hold '
+                    'different entries as soon as the leaf was filled out of key order or an entry was removed')
+    SLOT_FUNCS = {Y + 'border_node::get_lv_at', Y + 'base_node::get_key_slice_at', Y + 'base_node::get_key_length_at',
+                  Y + 'base_node::set_key_slice_at', Y + 'base_node::set_key_length_at', Y + 'border_node::set_lv',
+                  Y + 'border_node::set_lv_value', Y + 'border_node::set_lv_next_layer'}
+    n = 0
+    nf = 0
+    for f in sorted(facts.functions.values(), key=lambda x: x.fid):
+        if not f.blocks or not f.qname.startswith(Y):
+            continue
+        ranks = {}
+        for x in f.all_nodes():
+            if is_call(x, cq=Y + 'permutation::get_index_of_rank'):
+                a = call_args(f, x)
+                r = f.strip(a[0], casts=True) if a else None
+                if r is not None and r['k'] == 'DeclRefExpr' and r.get('dk') in ('var', 'parm'):
+                    ranks[r['id']] = r.get('name')
+        if not ranks:
+            continue
+        nf += 1
+        bad = []
+        uses = 0
+        for x in f.all_nodes():
+            arg = None
+            if x['k'] in CALL_KINDS and x.get('cq') in SLOT_FUNCS:
+                a = call_args(f, x)
+                arg = a[0] if a else None
+            elif x['k'] in CALL_KINDS and x.get('cn') == 'at' and 'std::array' in (x.get('cq') or ''):
+                rc = f.strip(call_recv(f, x), casts=True)
+                if rc is not None and rc['k'] == 'MemberExpr' and 'link_or_value' in (rc.get('ty') or ''):
+                    a = call_args(f, x)
+                    arg = a[0] if a else None
+            if arg is None:
+                continue
+            uses += 1
+            r = f.strip(arg, casts=True)
+            if r is not None and r['k'] == 'DeclRefExpr' and r.get('id') in ranks:
+                bad.append((x, ranks[r['id']]))
+        n += uses
+        fname = f.qname + ('<%s>' % f.targs if f.targs else '')
+        S.ob('R-IDX', fname, 'slot accesses (%d) in a function that ranks with %s' % (uses, ', '.join(sorted(set(ranks.values())))),
+             not bad, 'no rank variable is used as a slot number' if not bad else
+             'the rank `%s` is used as a slot number (%s): the entry at rank r is in slot perm[r], not in slot r' % (
+                 bad[0][1], bad[0][0].get('cn')), loc=short_loc(bad[0][0]) if bad else f.loc)
+    S.require('R-IDX', 'functions translating ranks to slots', nf, 6)
+    S.require('R-IDX', 'slot accesses in those functions', n, 10)
+
+
 def rule_rd1(S):
     """Reader side of 'each update is published as a single atomic word so a reader sees either the old or the new
     ordering': the lock-free readers consume the word through one local snapshot (shared with C01 / C04 / C10)."""
@@ -435,3 +488,4 @@ def run(S):
     rule_shift(S)
     rule_slot(S)
     rule_rd1(S)
+    rule_idx(S)
